@@ -455,6 +455,10 @@ fn exec_op(
         }
         "raw" => json!({"raw": raw_json(store)}),
         "layout" => json!({"files": list_layout(&store.path.join("fjall"))}),
+        "cas_insert" if req["async"].as_bool().unwrap_or(false) => match rt.block_on(store.cas_insert(unb64(req["b64"].as_str().unwrap_or("")))) {
+            Ok(h) => json!({"hash": h.to_string()}),
+            Err(e) => json!({"err": e.to_string()}),
+        },
         "cas_insert" => match store.cas_insert_sync(unb64(req["b64"].as_str().unwrap_or(""))) {
             Ok(h) => json!({"hash": h.to_string()}),
             Err(e) => json!({"err": e.to_string()}),
@@ -511,7 +515,8 @@ fn exec_op(
             let mut out = vec![];
             for i in 0..n {
                 let pad: String = std::iter::repeat((b'a' + ((i + tag) % 26) as u8) as char).take(size).collect();
-                let f = Frame::builder(topic, ctx).meta(json!({"bulk": i, "tag": tag, "pad": pad})).build();
+                let ttl: Option<xs::store::TTL> = req.get("ttl").and_then(|t| serde_json::from_value(t.clone()).ok());
+                let f = Frame::builder(topic, ctx).meta(json!({"bulk": i, "tag": tag, "pad": pad})).maybe_ttl(ttl).build();
                 match store.append(f) {
                     Ok(f) => out.push(json!([f.id.to_string(), frame_digest(&f).to_string()])),
                     Err(e) => return json!({"err": e.to_string(), "done": out}),
